@@ -182,8 +182,14 @@ pub fn diff_reparsed(o: &Obs, c: &Content) -> Vec<String> {
         d.push(format!("re-parsed size {} != {} (data {} + padded c-string pool {})", o.size, m.size(), c.size(), m.size() - c.size()));
         return d;
     }
+    let mut covered = vec![false; m.size()];
+    for a in m.strings.keys().chain(m.pointers.keys()).chain(m.cstrings.keys()) {
+        for i in *a..(*a + 4).min(m.size()) {
+            covered[i] = true;
+        }
+    }
     for i in 0..m.size() {
-        if !m.annotated(i) && o.bytes.get(i) != m.data.get(i) {
+        if !covered[i] && o.bytes.get(i) != m.data.get(i) {
             d.push(format!("raw byte {} is {:?}, expected {:?}", i, o.bytes.get(i), m.data.get(i)));
             break;
         }
